@@ -10,4 +10,5 @@ CONSTANTS
   FixSave = FALSE
   FixRecover = FALSE
   FixRelease = FALSE
+  SplitCleanup = FALSE
 INVARIANT EmitEnd
